@@ -14,7 +14,8 @@ SPEC = {
         ('K-upsert(keeps the better)', 'upsert', '^upsert:present'),
         ("_match_non_emitting_states_end(next column written only through keep-the-better upsert; worse candidates dropped)", 'ne_end', r'^ne-end:'),
         ("match(per observation: emitting expansion first and unconditional, non-emitting search after it iff enabled)", 'match', r'^loop:(emitting-expansion|non-emitting-search)'),
-        ("_match_non_emitting_states(per level: one more non-emitting step, then every live entry of the level is linked to the next observation)", 'ne_levels', r'^levels:(steps|every-live|inner-step)')],
+        ("_match_non_emitting_states(per level: one more non-emitting step, then every live entry of the level is linked to the next observation)", 'ne_levels', r'^levels:(steps|every-live|inner-step)'),
+        ("BaseMatcher.__init__(cut-offs and noise do not depend on the non_emitting_states switch or any other switch)", 'matcher_init', r'^init:')],
     'bounded': [
         ('ne-on-vs-off', suites.case_C06, 1500, 200000, RULE + '; ' + 'non-trivial = the run with non-emitting states uses one on its best path or the matched indices differ', '')],
 }
